@@ -479,13 +479,20 @@ fn search_interrupt(args: &[String]) -> i32 {
 // ------------------------------------------------------------------------------------------------ C03
 fn bestmove(args: &[String]) -> i32 {
     let seed = seed_arg(args);
-    let mut rep = Report::new("bestmove", &format!("corpus positions (seed {}) x node limits {{0,1,2,3,5,17,200}} x depth {{1,2,64}}, one searcher reused across all positions", seed));
+    let mut rep = Report::new("bestmove", &format!("corpus positions (seed {}) x node limits {{0,1,2,3,5,17,200}} x depth {{2,3,64}}, plus unlimited depth 1..2 where the position has <= 12 men and no pawn about to promote; one searcher reused across all positions", seed));
+    let walks = num_arg(args, "walks", 60);
     let mut s = Searcher::new();
-    for p in corpus(seed, 60, 30).iter() {
+    for p in corpus(seed, walks, 30).iter() {
         let fen = to_fen(p);
         let board = eng_board(p);
         let legal: BTreeSet<String> = legal_moves(p).iter().map(|m| m.uci()).collect();
+        // searches without a node limit only where the quiescence tree is small (few men, no pawn about to promote): the
+        // point of this check is the budget-exhausted cases and the reuse of one searcher across positions
+        let men = p.sq.iter().filter(|x| x.is_some()).count();
+        let promo_race = (8..16).any(|i| p.sq[i] == Some((Col::B, Pc::P))) || (48..56).any(|i| p.sq[i] == Some((Col::W, Pc::P)));
+        let unlimited_ok = men <= 12 && !promo_race;
         for (lim, depth) in [(Some(0u64), 64u8), (Some(1), 64), (Some(2), 2), (Some(3), 64), (Some(5), 2), (Some(17), 64), (Some(200), 3), (None, 1), (None, 2)] {
+            if lim.is_none() && !unlimited_ok { continue; }
             verif_hook::set_node_limit(lim);
             let r = s.find_best_move(&board, depth, lim.map(|_| std::time::Duration::from_secs(3600)));
             verif_hook::set_node_limit(None);
